@@ -461,6 +461,8 @@ def c05(run):
             {"quiet": q, "reject": rjx, "rerun": "bin/check C05"}, {"kind": "default", "what": "stale limit after concurrent updates"})
     # the partition share half: exhaustive graph of the Partition contract (SetLimit / add / remove)
     partition_pipeline(run, "C05", lambda kind, m: {"kind": kind, "what": "share"}, only_limits=True)
+    # a limit update racing AddPartition (and the other concurrent histories): shares against the limit in force once quiet
+    partition_stress(run, "C05", 600 if run.tier == "thorough" else 60, aspect="shares")
 
 
 # ------------------------------------------------------------------------------ C03
@@ -558,26 +560,39 @@ def partition_random(run, prop, classify, only_limits=False, samples=False):
     ]
 
 
-def partition_stress(run, prop, n):
-    """Free-running goroutines on real partitioned strategies; TLC searches each history for a linearisation (PartitionLin)."""
+def partition_stress(run, prop, n, aspect="state"):
+    """Free-running goroutines on real partitioned strategies; TLC searches each history for a linearisation (PartitionLin).
+    aspect "state" (C03): results, bins and totals - the shares logged with some final observations are left out;
+    aspect "shares" (C05): with the shares; a history that has no linearisation even without them is C03's and is not reported."""
     out, _ = run.go("^TestPartitionStress$", env={"VERIF_N": n}, timeout=900)
     tp = os.path.join(out, "partlin_trace.ndjson")
     rows = vlib.read_ndjson(tp)
     ops = sum(1 for x in rows if x["t"] == "b")
     refused = sum(1 for x in rows if x["t"] == "e" and not x["ok"])
-    run.extra["partition_stress"] = {"histories": n, "calls": ops, "refusals": refused}
+    run.extra["partition_stress"] = {"histories": n, "calls": ops, "refusals": refused,
+                                     "histories_with_shares": sum(1 for x in rows if x["t"] == "final" and "bl" in x.get("obs", {}))}
     if refused == 0:
         raise Machinery("partition stress histories are vacuous (no refusal)")
-    remaining = rows
-    for attempt in range(6):
-        path = os.path.join(out, "pl_%d.ndjson" % attempt)
-        vlib.write_ndjson(path, remaining)
-        r = run.tlc("PartitionLin", "PartitionLin_trace.cfg", workers=1, env={"VERIF_TRACE": path}, label="val:PartitionLin[%d lines]" % len(remaining),
-                    jvm="-Xmx6g", timeout=1200)
+
+    def strip(lines):
+        res = []
+        for x in lines:
+            if x["t"] == "final" and "bl" in x.get("obs", {}):
+                x = dict(x, obs={k: v for k, v in x["obs"].items() if k != "bl"})
+            res.append(x)
+        return res
+
+    def validate(lines, path, label):
+        vlib.write_ndjson(path, lines)
+        r = run.tlc("PartitionLin", "PartitionLin_trace.cfg", workers=1, env={"VERIF_TRACE": path}, label=label, jvm="-Xmx6g", timeout=1200)
         if r.error or r.violation:
             raise Machinery("PartitionLin failed to run: %s %s\n%s" % (r.error, r.violation, r.raw[-3000:]))
         marks = [int(x) for x in r.prints.get("MARK", [])]
-        mark = max(marks) if marks else 0
+        return max(marks) if marks else 0
+
+    remaining = strip(rows) if aspect == "state" else rows
+    for attempt in range(6):
+        mark = validate(remaining, os.path.join(out, "pl_%d.ndjson" % attempt), "val:PartitionLin[%d lines]" % len(remaining))
         run.events += mark
         if mark == len(remaining):
             run.traces += len([x for x in remaining if x["t"] == "reset"])
@@ -585,9 +600,17 @@ def partition_stress(run, prop, n):
         bad = remaining[min(mark, len(remaining) - 1)]["trace"]
         hist = [x for x in remaining if x["trace"] == bad]
         kind = hist[0]["cfg"]["kind"]
-        run.report("%s strategy: recorded concurrent history %d has no linearisation under the Partition contract (TLC consumed %d of its %d events)" % (
-            kind, bad, sum(1 for x in remaining[:mark] if x["trace"] == bad), len(hist)),
-            {"history": hist, "rerun": "VERIF_SEED=%d bin/check %s --tier %s" % (run.seed, prop, run.tier)}, {"kind": kind, "what": "linearisability"})
+        mine = True
+        if aspect == "shares":
+            h2 = strip(hist)
+            mine = validate(h2, os.path.join(out, "pl_%d_plain.ndjson" % attempt), "val:PartitionLin[history %s without shares]" % bad) == len(h2)
+        if mine:
+            run.report("%s strategy: recorded concurrent history %d has no linearisation under the Partition contract%s (TLC consumed %d of its %d events)" % (
+                kind, bad, " once the shares of its final observation are taken into account" if aspect == "shares" else "",
+                sum(1 for x in remaining[:mark] if x["trace"] == bad), len(hist)),
+                {"history": hist, "rerun": "VERIF_SEED=%d bin/check %s --tier %s" % (run.seed, prop, run.tier)}, {"kind": kind, "what": "linearisability"})
+        else:
+            run.extra.setdefault("not_linearisable_even_without_shares", []).append(bad)
         remaining = [x for x in remaining if x["trace"] != bad]
     run.extra["partition_stress_note"] = "stopped after 6 non-linearisable histories"
 
@@ -1263,6 +1286,11 @@ def c01(run):
         er, gr = e.get("res") or {}, g.get("res") or {}
         if isinstance(er, dict) and isinstance(gr, dict) and er.get("ok") != gr.get("ok"):
             return {"kind": "default", "what": "grant decision"}
+        # the gate's limit is the one the latest sample-driven update put in force: a limit that did not follow the
+        # trajectory makes every later decision the wrong gate's
+        ep, gp = (e.get("post") or {}), (g.get("post") or {})
+        if isinstance(ep, dict) and isinstance(gp, dict) and ep.get("limit") != gp.get("limit"):
+            return {"kind": "default", "what": "limit in force"}
         return None
     limiter_pipeline(run, "C01", lambda m: {"kind": "default", "what": "grant decision"} if _res_field_differs(m, "ok") else None, seq_rj, graphs=th)
     run.assumptions += ["the bounded real-time wait of the attack executor (30 ms quick, 200 ms thorough) can only miss a detection on an overloaded machine, never raise an alarm",
